@@ -12,6 +12,7 @@ the harness.  Here: everything around it that is algebra.
 * C. uniqueness of the solution (binary and n components), permutation equivariance, forward / reverse inversion,
      instances for the library's own spreading pressures;
 * D. non-vacuity examples.
+(E–H, the raw-data certificate for point-isotherm mixtures and its uniqueness: `Props/C13/Point.lean`.)
 
 Part A is over an arbitrary field (the harness runs the model at ℚ), B/C over ℝ.
 -/
